@@ -96,8 +96,8 @@ def gen_chain(tier, seed):
                     if L < 2:
                         continue
                     # depth 2: reduced set x reduced set (the integer algebra at every depth is in the proof tier)
-                    lvl1 = slice_ops(L, rich=False)[::(1 if thorough else 3)] + extra
-                    lvl2 = slice_ops(L, rich=False)[::(1 if thorough else 2)] + extra
+                    lvl1 = slice_ops(L, rich=False)[::(2 if thorough else 3)] + extra
+                    lvl2 = slice_ops(L, rich=False)[::(2 if thorough else 2)] + extra
                     for op1 in lvl1:
                         for op2 in lvl2:
                             yield [new, mt, parent, off, [op1, op2]]
